@@ -8,6 +8,8 @@ package props
 //   mutate   the encoded JSON with one position replaced by another JSON value → DecodeCustom
 //   number   every JSON number text of the boundary list against every numeric kind (and time.Time)
 //   claims   Claims values → jwt.Sign → Parser.Parse; model encodeClaims → parseClaims
+//   history  2–4 operations (EncodeCustom / DecodeCustom / Sign→Parse refresh) on one Claims with a
+//            pre-populated Raw and one pre-populated destination (c10_history.go)
 // plus direct evaluation of the property (round trip equality, "fits ⇔ accepted, never altered").
 
 import (
@@ -449,6 +451,8 @@ type c10Case struct {
 	Text string `json:"text,omitempty"`
 	// claims
 	Claims *c10ClaimsIn `json:"claims,omitempty"`
+	// history: a sequence of operations on one Claims / one destination
+	Hist *c10Hist `json:"hist,omitempty"`
 }
 
 type c10ClaimsIn struct {
@@ -1026,6 +1030,8 @@ func execC10(c *vf.Ctx, d *vf.Driver, cs c10Case) {
 		execC10Number(c, d, cs)
 	case "claims":
 		execC10Claims(c, d, cs)
+	case "history":
+		execC10History(c, d, cs)
 	}
 }
 
@@ -1037,11 +1043,11 @@ func runC10(c *vf.Ctx) {
 			execC10(c, d, cs)
 		}
 	})
-	nCustom, nMutate, nClaims, nRandNum, nDyn := 30000, 24000, 12000, 6000, 2000
+	nCustom, nMutate, nClaims, nRandNum, nDyn, nHist := 30000, 24000, 12000, 6000, 2000, 16000
 	if !c.Quick() {
-		nCustom, nMutate, nClaims, nRandNum, nDyn = 450000, 400000, 200000, 100000, 40000
+		nCustom, nMutate, nClaims, nRandNum, nDyn, nHist = 450000, 400000, 200000, 100000, 40000, 250000
 	} else if p04Search() {
-		nCustom, nMutate, nClaims, nRandNum, nDyn = 90000, 80000, 40000, 20000, 8000
+		nCustom, nMutate, nClaims, nRandNum, nDyn, nHist = 90000, 80000, 40000, 20000, 8000, 60000
 	}
 	texts := c10NumberTexts()
 	var numeric []string
@@ -1107,6 +1113,13 @@ func runC10(c *vf.Ctx) {
 		}
 		for i := 0; i < nClaims/workers && !f.stop(); i++ {
 			execC10(c, d, c10Case{Stream: "claims", Claims: c10GenClaims(r)})
+		}
+		for i := 0; i < nHist/workers && !f.stop(); i++ {
+			cs := c10Case{Stream: "history", Hist: c10GenHist(r, nDyn)}
+			execC10(c, d, cs)
+			if i%4000 == 0 {
+				c.Sample(cs)
+			}
 		}
 	})
 	c.Set("family_types", len(c10Family))
